@@ -90,6 +90,8 @@ CELLS_B = {
     "regular": ([[4, 0, 0], [1, 5, 0], [0, 0, 6]], None),
     "zero-c": ([[4, 0, 0], [1, 5, 0], [0, 0, 0]], 2),
     "zero-a": ([[0, 0, 0], [1, 5, 0], [0, 2, 6]], 0),
+    # a sheet in the xy plane whose missing lattice vector is stored first: the zero row (0) and the zero Cartesian column (2) differ
+    "zero-a-xy": ([[0, 0, 0], [4, 0, 0], [1, 5, 0]], 0),
 }
 
 
